@@ -12,11 +12,19 @@ import (
 
 func main() {
 	if len(os.Args) >= 3 && os.Args[1] == "--facts" {
-		if err := writeFacts("/repo", os.Args[2]); err != nil {
+		if err := writeFacts(repoRoot(), os.Args[2]); err != nil {
 			fmt.Fprintln(os.Stderr, err)
 			os.Exit(1)
 		}
 		return
 	}
 	h.Main("C18")
+}
+
+// repoRoot: /repo, or the scratch worktree named by VERIF_REPO (development aid of ./check)
+func repoRoot() string {
+	if r := os.Getenv("VERIF_REPO"); r != "" {
+		return r
+	}
+	return "/repo"
 }
